@@ -102,6 +102,43 @@ let handle_h (f : string list) : string =
       id ^ " " ^ String.concat " " (List.map show_obs os @ [ show_fobs fo ])
   | _ -> failwith "bad H line"
 
+
+(* ---------- M*: MessagePack ----------
+   MS <id> <hex> <depth>   next_value_size
+   MT <id> <S|R> <hex>     msgpack -> msgpack document loop: verdict and writer bytes
+   MD <id> <hex>           msgpack::input_matches on fully available input *)
+
+let show_sz = function
+  | SzOk n -> Printf.sprintf "ok:%d" (int_of_n n)
+  | SzErr Truncated -> "err:truncated"
+  | SzErr InvalidMarker -> "err:marker"
+  | SzErr DepthLimitExceeded -> "err:depth"
+  | SzPanic -> "panic"
+  | SzOutOfFuel -> "outoffuel"
+
+let handle_ms = function
+  | [ id; data; depth ] ->
+      id ^ " " ^ show_sz (next_value_size (bytes_of_hex data) (nat_of_int (int_of_string depth)))
+  | _ -> failwith "bad MS line"
+
+let handle_mt = function
+  | [ id; mode; data ] ->
+      let inp = bytes_of_hex data in
+      let r = if mode = "S" then transcode_slice utf8_valid inp else transcode_reader utf8_valid inp in
+      let fin =
+        match snd r with
+        | MDone -> "ok"
+        | MSizeErr _ | MDecErr _ -> "err"
+        | MPanic -> "panic"
+        | MOutOfFuel -> "outoffuel"
+      in
+      Printf.sprintf "%s %s docs:%d %s" id fin (List.length (fst r)) (hex_of_bytes (mm_output r))
+  | _ -> failwith "bad MT line"
+
+let handle_md = function
+  | [ id; data ] -> id ^ " " ^ if msgpack_matches utf8_valid (bytes_of_hex data) then "match" else "nomatch"
+  | _ -> failwith "bad MD line"
+
 let () =
   try
     while true do
@@ -111,6 +148,9 @@ let () =
         let out =
           match f with
           | "H" :: rest -> handle_h rest
+          | "MS" :: rest -> handle_ms rest
+          | "MT" :: rest -> handle_mt rest
+          | "MD" :: rest -> handle_md rest
           | k :: _ -> failwith ("unknown case kind " ^ k)
           | [] -> ""
         in
